@@ -196,6 +196,7 @@ def build(kind, source, closefd):
             sc.handles['sec_tmd'] = r.open_raw_section(CIASection.TitleMetadata)
             sc.handles['sec_c0'] = r.open_raw_section(0)
             sc.handles['sec_c1'] = r.open_raw_section(1)
+            sc.handles['sec_c0_again'] = r.open_raw_section(0)
             sc.nested['c0'] = r.contents[0]
             _ncch_handles(sc, r.contents[0], 'c0_')
         elif kind == 'cci':
@@ -233,6 +234,8 @@ def build(kind, source, closefd):
                 fsobj.close()
             sc.handles['sec_c0'] = r.open_raw_section(0)
             sc.handles['sec_c1'] = r.open_raw_section(1)
+            # a second handle on a section that already has a live one: a sibling like any other
+            sc.handles['sec_c0_again'] = r.open_raw_section(0)
             sc.nested['c0'] = r.contents[0]
             _ncch_handles(sc, r.contents[0], 'c0_')
         elif kind in ('disa', 'diff'):
